@@ -8,7 +8,7 @@ import time
 
 import z3
 
-from vlib import common, emlctx
+from vlib import common, emlctx, nodeenc
 from vlib.common import Report
 from vlib.pybmc import Interp, Sym, SymDict, GuardedLog, Unsupported, zand, znot, zor
 
@@ -26,10 +26,13 @@ def _native(rule_name, attrs, collecting):
     n = Node(emlctx.element_for_rule(rule_name) or "x", id="n")
     for k, v in attrs.items():
         n.add_attribute(k, v)
+    n._content = emlctx.valid_content(rule_name)
+    for i, c in enumerate(nodeenc.shortest_children(rule_name, emlctx.element_for_rule(rule_name)) or []):
+        n.add_child(Node(c, id="c%d" % i))
     r = R.Rule(rule_name)
     errs = [] if collecting else None
     try:
-        r._validate_attributes(n, errs)
+        r.validate_rule(n, errs)
     except MetapypeRuleError:
         return "reject", None
     except Exception as e:
@@ -94,28 +97,28 @@ def encode(job):
     from metapype.model.node import Node
     res = {"rule": rule_name, "collecting": collecting, "verdicts": {}, "cex": {}, "twins": {}}
     spec = R.rules_dict[rule_name][0]
-    it = Interp(bv=BV, logic="QF_BV", seed=sd)
-    it.intern.code("")
-    for sp in spec.values():
-        for v in sp[1:]:
-            it.intern.code(v)
-    keys = list(spec.keys()) + [FOREIGN_KEY]
-    present = [z3.Bool("has_%d" % i) for i in range(len(keys))]
-    values = [it.name("val_%d" % i) for i in range(len(keys))]
-    for v in values:
-        it.solver.add(it.intern.domain(v.z))
-    Node.store.clear()
-    n = Node(emlctx.element_for_rule(rule_name) or "x", id="n")
-    n._attributes = SymDict(keys, present, values)
-    r = R.Rule(rule_name)
-    errs = GuardedLog(it) if collecting else None
+    el = emlctx.element_for_rule(rule_name)
+    st = nodeenc.Setup(rule_name, element=el, content="valid", attrs="sym", children=nodeenc.shortest_children(rule_name, el) or [],
+                       collecting=collecting, seed=sd)
     try:
-        it.call(r._validate_attributes, [n, errs], {})
+        view, h = nodeenc.run(st)
     except Unsupported as e:
         res["unsupported"] = str(e)
         return res
-    P = dict(zip(keys, present))
-    V = dict(zip(keys, values))
+    it = view.q
+    res["mode"] = view.mode
+    keys = list(spec.keys()) + [FOREIGN_KEY]
+    P, V = h["P"], h["V"]
+
+    class _E:
+        pass
+    errs = _E()
+    errs.entries = view.entries
+    errs.nonempty = view.log_nonempty
+
+    class _G:
+        pass
+    it_view = _G()
     viol = []
     for k, sp in spec.items():
         if sp[0]:
@@ -124,26 +127,28 @@ def encode(job):
             viol.append(z3.And(P[k], z3.Not(z3.Or([V[k].z == it.intern.code(v) for v in sp[1:]]))))
     viol.append(P[FOREIGN_KEY])
     ok = znot(zor(*viol))
-    esc = it.sinks[0]
+    esc = view.esc
+    normal = view.normal
     fam = zor(*[g for g, e in esc if isinstance(e, MetapypeRuleError)])
     if collecting:
-        accept = zand(it.g, znot(errs.nonempty()))
+        accept = zand(normal, znot(errs.nonempty()))
         other = zor(*([g for g, e in esc] + [g for g, item in errs.entries
                                               if not (isinstance(item, tuple) and getattr(item[0], "name", None) in CODES)]))
         reject = errs.nonempty()
     else:
-        accept = it.g
+        accept = normal
         other = zor(*[g for g, e in esc if not isinstance(e, MetapypeRuleError)])
         reject = fam
     s = it.solver
     s.set("timeout", 300000)
     qs = {"accept_differs_from_spec": z3.Xor(accept, ok), "foreign_failure": other,
           "neither_accept_nor_reject": znot(zor(accept, reject, other)),
-          "unwinding": zor(*it.incomplete), "overflow": zor(*it.overflow)}
+          "path_coverage_hole": view.coverage_hole,
+          "unwinding": zor(*view.incomplete), "overflow": zor(*view.overflow)}
     if collecting:
         nerr = z3.Sum([z3.If(g, 1, 0) for g, item in errs.entries] + [z3.IntVal(0)])
         nviol = z3.Sum([z3.If(v, 1, 0) for v in viol] + [z3.IntVal(0)])
-        qs["error_count_differs"] = zand(it.g, nerr != nviol)
+        qs["error_count_differs"] = zand(normal, nerr != nviol)
         # per code: number of appended errors of that code == number of violated constraints of that kind
         kinds = {"ATTRIBUTE_REQUIRED": [z3.Not(P[k]) for k, sp in spec.items() if sp[0]],
                  "ATTRIBUTE_UNRECOGNIZED": [P[FOREIGN_KEY]],
@@ -154,7 +159,7 @@ def encode(job):
             ne = z3.Sum([z3.If(g, 1, 0) for g, item in errs.entries if getattr(item[0], "name", None) == code] + [z3.IntVal(0)])
             nv = z3.Sum([z3.If(v, 1, 0) for v in vs] + [z3.IntVal(0)])
             diffs.append(ne != nv)
-        qs["error_codes_differ"] = zand(it.g, zor(*diffs))
+        qs["error_codes_differ"] = zand(normal, zor(*diffs))
     t1 = time.time()
 
     def decode(m):
@@ -174,8 +179,8 @@ def encode(job):
         if rr == "sat":
             res["twins"][qn + "_model"] = decode(s.model())
     res["t_solve"] = time.time() - t1
-    res["stats"] = {k: (round(v, 3) if isinstance(v, float) else v) for k, v in it.stats.items()}
-    res["functions"] = sorted(it.encoded)
+    res["stats"] = {k: (round(v, 3) if isinstance(v, float) else v) for k, v in view.stats.items()}
+    res["functions"] = sorted(view.functions)
     return res
 
 
@@ -269,7 +274,7 @@ def run(tier, only=None):
             if v == "unknown":
                 rep.inconclusive.append("%s: query %s unknown" % (tag, qn))
             elif v == "sat":
-                if qn in ("unwinding", "overflow"):
+                if qn in ("unwinding", "overflow", "path_coverage_hole"):
                     rep.inconclusive.append("%s: %s obligation open" % (tag, qn))
                     continue
                 attrs = r["cex"][qn]
